@@ -195,6 +195,15 @@ func runC07(r *core.Run) {
 				sql = sql[:strings.LastIndex(sql, " OFFSET ")] + " OFFSET 1e30"
 			}
 		}
+		// every twelfth case: the cut query stands on the right of IN - the rows whose id it yields, sorted again by the same keys,
+		// are a correctly cut window of the table all the same (a sub-query's ORDER BY matters as soon as it is cut)
+		if c%12 == 11 && n >= 2 && perm == nil && !exprKey && !customDT && !wantInner && strings.HasPrefix(sql, "SELECT * FROM t ORDER BY ") {
+			if lim["k"] == "none" && m == 0 {
+				m = []int{1, 2, n / 2, n - 1}[rng.Intn(4)]
+				sql += fmt.Sprintf(" OFFSET %d", m)
+			}
+			sql = "SELECT * FROM t WHERE id IN (" + strings.Replace(sql, "SELECT * FROM t", "SELECT id FROM t", 1) + ") ORDER BY " + strings.Join(parts, ", ")
+		}
 		// every fifth case: the rows come from a derived table that has an OFFSET of its own (it drops the rows with the smallest
 		// ids); the outer OFFSET / LIMIT / PERCENT count the rows the outer query receives, nothing else
 		inner := 0
@@ -232,6 +241,9 @@ func runC07(r *core.Run) {
 		}
 		if m != 0 {
 			sig += ":offset"
+		}
+		if strings.Contains(sql, " WHERE id IN (") {
+			sig += ":in-subquery"
 		}
 		if e != "" {
 			legit := (e == "InvalidLimitNumber" || e == "InvalidLimitPercentage" || e == "InvalidOffsetNumber") && false
